@@ -39,6 +39,10 @@ let parse_op toks = match toks with
   | ["remall"; x; y] -> ORemAll (n x, n y)
   | ["reserve"; x; c] -> OReserve (n x, n c)
   | ["resize"; x; c; a] -> OResize (n x, n c, parse_arg a)
+  | ["apprange"; x; y; i; c] -> OAppendRange (n x, n y, n i, n c)
+  | ["rematit"; x; i] -> ORemVia (VIter, n x, n i)
+  | ["rempop"; x; "f"] -> ORemVia (VFront, n x, nat_of_int 0)
+  | ["rempop"; x; "b"] -> ORemVia (VBack, n x, nat_of_int 0)
   | _ -> failwith ("bad op: " ^ String.concat " " toks)
 
 let oz_str o = match o with Some z -> string_of_int (int_of_z z) | None -> "_"
